@@ -15,9 +15,40 @@ use crate::sem;
 
 pub const APIS: usize = 8;
 
+/// Handles 0..2: the searcher, its clone, the clone's clone. Handles 3..4: a
+/// second, different searcher (longer patterns derived from the first list)
+/// and its clone, so that state leaking from one searcher into another
+/// through anything process-wide is observable.
 struct Handles {
-    s: [Searcher; 3],
-    p: [Option<packed::Searcher>; 3],
+    s: [Searcher; 5],
+    p: [Option<packed::Searcher>; 5],
+    pats: [Vec<Vec<u8>>; 2],
+}
+
+const NH: u8 = 5;
+
+fn second_patterns(pats: &[Vec<u8>]) -> Vec<Vec<u8>> {
+    let mut out: Vec<Vec<u8>> = pats
+        .iter()
+        .map(|p| {
+            let mut q = p.clone();
+            q.extend_from_slice(p);
+            q.extend_from_slice(p);
+            q
+        })
+        .collect();
+    if let Some(first) = pats.first() {
+        out.push(first.clone());
+    }
+    out
+}
+
+fn which(handle: u8) -> usize {
+    if handle % NH >= 3 {
+        1
+    } else {
+        0
+    }
 }
 
 fn clone_searcher(s: &Searcher) -> Searcher {
@@ -46,13 +77,14 @@ fn eff_span(op: &Op) -> (usize, usize) {
 
 /// Execute one operation and return a normalised result string.
 fn exec(case: &Case, h: &Handles, op: &Op) -> Result<String, String> {
-    let s = &h.s[(op.handle % 3) as usize];
+    let s = &h.s[(op.handle % NH) as usize];
+    let pats = &h.pats[which(op.handle)];
     let hay = &op.haystack[..];
     let span = eff_span(op);
     let anchored = eff_anchored(case, op);
     let std_kind = case.cfg.mk == Mk::Standard;
     let unanch = case.cfg.supports_anchored(false);
-    let nonempty = !case.patterns.is_empty() && case.patterns.iter().all(|p| !p.is_empty());
+    let nonempty = !pats.is_empty() && pats.iter().all(|p| !p.is_empty());
     let e = |x: aho_corasick::MatchError| format!("supported request returned Err({})", x);
     let r = guard(|| -> Result<String, String> {
         Ok(match op.api as usize % APIS {
@@ -64,16 +96,19 @@ fn exec(case: &Case, h: &Handles, op: &Op) -> Result<String, String> {
                 _ => format!("is_match {:?}", s.try_find(input(hay, span, anchored, false)).map_err(e)?.is_some()),
             },
             5 if unanch => {
-                let repl: Vec<Vec<u8>> = (0..case.patterns.len()).map(|i| vec![b'#'; i % 3]).collect();
+                let repl: Vec<Vec<u8>> = (0..pats.len()).map(|i| vec![b'#'; i % 3]).collect();
                 format!("replace {:?}", s.replace_all_bytes(hay, &repl).map_err(e)?)
             }
             6 if std_kind && nonempty && unanch => {
-                let items = s.stream_find(hay).map_err(e)?;
+                // small reads (1..4 bytes) at the default buffer capacity
+                let sizes = [1 + (op.span.0 % 4)];
+                let rdr = crate::props::stream::SchedReader::new(hay, &sizes, &[], None);
+                let items = s.stream_find(rdr).map_err(e)?;
                 let v: Vec<String> = items.into_iter().map(|r| format!("{:?}", r.map_err(|e| e.kind()))).collect();
                 format!("stream {:?}", v)
             }
-            7 => match &h.p[(op.handle % 3) as usize] {
-                Some(ps) => format!("packed {:?}", ps.find_iter(hay).map(to_m).collect::<Vec<_>>()),
+            7 => match &h.p[(op.handle % NH) as usize] {
+                Some(ps) => format!("packed {:?}", ps.find_iter(hay).take(hay.len() + 3).map(to_m).collect::<Vec<_>>()),
                 None => format!("find {:?}", s.try_find(input(hay, span, anchored, false)).map_err(e)?),
             },
             _ => format!("find {:?}", s.try_find(input(hay, span, anchored, false)).map_err(e)?),
@@ -86,13 +121,24 @@ fn exec(case: &Case, h: &Handles, op: &Op) -> Result<String, String> {
 }
 
 /// What the model says for the value-defined APIs.
-fn model_result(case: &Case, op: &Op) -> Option<String> {
-    let occ = Occ::new(&case.patterns, &op.haystack, case.cfg.casei);
+fn model_result(case: &Case, h: &Handles, op: &Op) -> Option<String> {
+    let pats = &h.pats[which(op.handle)];
+    let occ = Occ::new(pats, &op.haystack, case.cfg.casei);
     let (s0, e0) = eff_span(op);
     let anchored = eff_anchored(case, op);
     let std_kind = case.cfg.mk == Mk::Standard;
+    let nonempty = !pats.is_empty() && pats.iter().all(|p| !p.is_empty());
     match op.api as usize % APIS {
-        1 | 5 | 6 => None,
+        1 | 5 => None,
+        6 if std_kind && nonempty && case.cfg.supports_anchored(false) => {
+            let v: Vec<String> = occ
+                .iter(Mk::Standard, 0, op.haystack.len(), false)
+                .into_iter()
+                .map(|m| format!("{:?}", Ok::<_, std::io::ErrorKind>(m)))
+                .collect();
+            Some(format!("stream {:?}", v))
+        }
+        6 => Some(format!("find {:?}", occ.find(case.cfg.mk, s0, e0, anchored))),
         7 => None,
         2 => Some(format!("iter {:?}", occ.iter(case.cfg.mk, s0, e0, anchored))),
         3 if std_kind => Some(format!("overlapping {:?}", occ.overlapping(s0, e0, anchored))),
@@ -116,12 +162,15 @@ fn c17_check(case: &Case, ctx: &mut Ctx) -> Result<(), String> {
     };
     let p1 = p0.clone();
     let p2 = p1.clone();
-    let h = Handles { s: [s0, s1, s2], p: [p0, p1, p2] };
+    let pats2 = second_patterns(&case.patterns);
+    let s3 = Searcher::build(&case.cfg, &pats2)?;
+    let s4 = clone_searcher(&s3);
+    let h = Handles { s: [s0, s1, s2, s3, s4], p: [p0, p1, p2, None, None], pats: [case.patterns.clone(), pats2] };
     // --- sequential history, compared with the model
     let mut results: Vec<String> = Vec::with_capacity(case.ops.len());
     for (i, op) in case.ops.iter().enumerate() {
         let r = exec(case, &h, op).map_err(|e| format!("op {} ({:?}): {}", i, op, e))?;
-        if let Some(m) = model_result(case, op) {
+        if let Some(m) = model_result(case, &h, op) {
             if m != r {
                 return Err(format!("op {} in the sequential history: expected {}, got {}", i, m, r));
             }
@@ -131,7 +180,8 @@ fn c17_check(case: &Case, ctx: &mut Ctx) -> Result<(), String> {
     // --- same ops in reverse order, and every op on every handle: results
     //     must not depend on history or on which clone is used
     for (i, op) in case.ops.iter().enumerate().rev() {
-        for handle in 0..3u8 {
+        let group: &[u8] = if which(op.handle) == 0 { &[0, 1, 2] } else { &[3, 4] };
+        for &handle in group {
             let op2 = Op { handle, ..op.clone() };
             let r = exec(case, &h, &op2).map_err(|e| format!("op {} (reverse pass, handle {}): {}", i, handle, e))?;
             if r != results[i] {
@@ -157,7 +207,9 @@ fn c17_check(case: &Case, ctx: &mut Ctx) -> Result<(), String> {
                         // each thread walks the history from a different
                         // offset so that different ops overlap in time
                         let i = (k + t * 3 + round) % case.ops.len();
-                        let op = Op { handle: ((case.ops[i].handle as usize + t) % 3) as u8, ..case.ops[i].clone() };
+                        let base = case.ops[i].handle % NH;
+                        let handle = if base >= 3 { 3 + ((base as usize - 3 + t) % 2) as u8 } else { ((base as usize + t) % 3) as u8 };
+                        let op = Op { handle, ..case.ops[i].clone() };
                         let n = in_flight.fetch_add(1, Ordering::SeqCst) + 1;
                         max_in_flight.fetch_max(n, Ordering::SeqCst);
                         let r = exec(case, h, &op);
@@ -191,7 +243,10 @@ fn c17_check(case: &Case, ctx: &mut Ctx) -> Result<(), String> {
         ctx.class("searches-overlapped-in-time");
     }
     ctx.count("max_in_flight_sum", overlapped as u64);
-    let handles_used: std::collections::BTreeSet<u8> = case.ops.iter().map(|o| o.handle % 3).collect();
+    let handles_used: std::collections::BTreeSet<u8> = case.ops.iter().map(|o| o.handle % NH).collect();
+    if handles_used.iter().any(|&h| h >= 3) && handles_used.iter().any(|&h| h < 3) {
+        ctx.class("two-different-searchers-in-history");
+    }
     if overlapped >= 2 && case.ops.len() >= 2 && handles_used.len() >= 2 {
         ctx.nontrivial();
     }
@@ -208,7 +263,7 @@ fn c17_strategy(_tier: Tier) -> BoxedStrategy<Case> {
         alphabets: gen::default_alphabets(),
         no_empty: false,
     });
-    let op = (0u8..3, 0u8..APIS as u8, gen::hay_recipe(HayOpts { size_class: 1 }), gen::span_recipe(false), any::<bool>(), any::<bool>());
+    let op = (0u8..NH, 0u8..APIS as u8, gen::hay_recipe(HayOpts { size_class: 1 }), gen::span_recipe(false), any::<bool>(), any::<bool>());
     (base, proptest::collection::vec(op, 2..=10), 2usize..=8, gen::alpha_strategy(&gen::default_alphabets()))
         .prop_map(|(mut case, ops, threads, ai)| {
             let alpha = gen::alphabet(ai);
@@ -275,8 +330,8 @@ fn c17_extra(_tier: Tier, _seed: u64, ctx: &mut Ctx) -> Result<bool, crate::runn
 
 pub const C17: PropDef = PropDef {
     id: "C17",
-    rule: "generated histories of 2..10 operations (find, earliest, find_iter, overlapping steps, is_match, replace_all_bytes, stream search, packed find_iter) over {searcher, clone, clone of clone} x generated haystacks/spans/anchoring, all engines and match kinds. \
-Oracle: (1) sequential: every value-defined result equals the reference model; (2) history independence: every operation re-run later, in reverse order and on each of the three handles, returns the identical value; \
+    rule: "generated histories of 2..10 operations (find, earliest, find_iter, overlapping steps, is_match, replace_all_bytes, stream search, packed find_iter) over {searcher, clone, clone of clone, a second searcher with longer patterns derived from the same list, its clone} x generated haystacks/spans/anchoring (stream searches use 1..4-byte reads at the default buffer capacity), all engines and match kinds. \
+Oracle: (1) sequential: every value-defined result equals the reference model; (2) history independence: every operation re-run later, in reverse order and on each handle of the same searcher, returns the identical value; \
 (3) concurrency: 2..8 threads (released together by a barrier) run rotated slices of the history twice on the shared searchers and clones, every result must equal the sequential one; an in-flight counter measures whether searches actually overlapped. \
 A keyword scan of /repo/src for interior mutability outside the verification hooks is recorded as context only (it never produces a violation). \
 Non-trivial = at least two searches were in flight at the same time and the history uses at least two different handles. Distinct = distinct case fingerprint.",
